@@ -96,60 +96,48 @@ def exempt_names(fn):
 
 
 def outer_iter_names(nodes, enter_functions=False):
-    """names loaded by the FIRST iterable of comprehensions / generator expressions, as far as that iterable is
-    evaluated in the block the nodes are written in (language reference 6.2.4: "the iterable expression in the
-    leftmost for clause is evaluated directly in the enclosing scope").  Such a read is a read of the enclosing
-    function's variable even when the same name is the comprehension's own target, so it is NOT covered by the
-    comprehension-target exemption.  Lambda / def / class bodies are not entered."""
+    """names loaded inside the nodes at a position where CPython resolves them in the block the nodes are written in
+    although the same name is a comprehension target somewhere in that block -- NOT covered by the
+    comprehension-target exemption:
+      * the leftmost iterable of a comprehension is evaluated directly in the enclosing scope (language reference
+        6.2.4), even when it mentions the clause's own target: `[x for x in x]`
+      * inside a comprehension, a name that is a target neither of that comprehension nor of one enclosing it is the
+        enclosing function's variable, even when a comprehension nested further inside (already finished) used the
+        same name as its target: `[sum(k for k in row) + k for row in rows]`
+    Lambda / def / class bodies are not entered."""
     out = set()
 
-    def rec(n):
+    def targets_of(c):
+        return set(t.id for g in c.generators for t in ast.walk(g.target) if isinstance(t, ast.Name))
+
+    def rec(n, scope):
         if isinstance(n, (ast.FunctionDef, ast.AsyncFunctionDef, ast.Lambda, ast.ClassDef)):
             return
+        if isinstance(n, ast.Name):
+            if isinstance(n.ctx, ast.Load) and n.id not in scope:
+                out.add(n.id)
+            return
         if isinstance(n, (ast.ListComp, ast.SetComp, ast.DictComp, ast.GeneratorExp)):
-            first = n.generators[0].iter
-            for x in ast.walk(first):
-                if isinstance(x, ast.Lambda):
-                    break
-            else:
-                out.update(x.id for x in ast.walk(first) if isinstance(x, ast.Name) and isinstance(x.ctx, ast.Load)
-                           and not _inside_inner_comp(first, x))
-            rec(first)
-            return          # everything else of the comprehension runs in the comprehension's own scope
-        for c in ast.iter_child_nodes(n):
-            rec(c)
-    for n in nodes:
-        rec(n)
-    return out
-
-
-def _inside_inner_comp(root, name_node):
-    """is name_node inside a comprehension nested in root, other than in that comprehension's first iterable?"""
-    def rec(n, hidden):
-        if n is name_node:
-            return hidden
-        if isinstance(n, (ast.ListComp, ast.SetComp, ast.DictComp, ast.GeneratorExp)):
+            first = n.generators[0]
+            rec(first.iter, scope)
+            inner = scope | targets_of(n)
             for c in ast.iter_child_nodes(n):
-                if c is n.generators[0]:
-                    g = n.generators[0]
-                    r = rec(g.iter, hidden)
-                    if r is not None:
-                        return r
-                    for c2 in [g.target] + list(g.ifs):
-                        r = rec(c2, True)
-                        if r is not None:
-                            return r
+                if c is first:
+                    for c2 in list(first.ifs):
+                        rec(c2, inner)
                 else:
-                    r = rec(c, True)
-                    if r is not None:
-                        return r
-            return None
+                    rec(c, inner)
+            return
+        if isinstance(n, ast.comprehension):
+            rec(n.iter, scope)
+            for c2 in n.ifs:
+                rec(c2, scope)
+            return
         for c in ast.iter_child_nodes(n):
-            r = rec(c, hidden)
-            if r is not None:
-                return r
-        return None
-    return bool(rec(root, False))
+            rec(c, scope)
+    for n in nodes:
+        rec(n, set())
+    return out
 
 
 _CUT_ACTIVE = {}
@@ -433,7 +421,16 @@ def oracle_static(src, node, quirks):
             if isinstance(b, ast.ExceptHandler) and b.name:
                 ex_fv.add(b.name)
         body_nodes = fn.body if isinstance(fn.body, list) else [fn.body]
-        ex_fv -= outer_iter_names(body_nodes)
+        # ... except where CPython itself resolves such a read outside the function (3.12 inlines list / set / dict
+        # comprehensions into the function: a name that is only ever a target / read inside inlined comprehensions
+        # is a local of the function for CPython, and stays exempt)
+        for nme in outer_iter_names(body_nodes):
+            try:
+                sy = t.lookup(nme)
+            except KeyError:
+                continue
+            if sy.is_global() or sy.is_free():
+                ex_fv.discard(nme)
         ex_fv |= enclosing_targets.get(id(fn), set())
         ex_fv |= set(b.name for b in ast.walk(fn) if isinstance(b, ast.ExceptHandler) and b.name)   # except names stay exempt
         declared = declg | decln
